@@ -15,6 +15,7 @@ from ..core import (
 )
 from ..cfg import cfg_of
 from ..types import TypeEngine
+from . import shared
 
 EXPLANATION = (
     "R9.1 the na_action argument is validated against a literal set by a raising guard that dominates every "
@@ -193,34 +194,38 @@ def _reads(fn, expr):
 
 def r9_4(prog, rep):
     f = prog.fn("terms.terms.Model.var_names")
-    loops = [n for n in walk_local(f.node) if isinstance(n, ast.For)]
-    ok = len(loops) == 1 and unparse(loops[0].iter) == "self.terms" and \
-        any(unparse(x.func) == "var_names.update" and unparse(x.args[0]) == f"{unparse(loops[0].target)}.var_names" for x in calls_in(loops[0]))
-    obl(rep, f, loops[0] if loops else f.node, "R9.4", ok, "Model.var_names collects from every term in self.terms", "",
-        "Model.var_names does not iterate all of self.terms")
+    summ = shared.union_summary(f)
+    if summ is None:
+        rep.defer(f"R9.4: {f.qual} builds its set in a way the union algebra does not model")
+        summ = frozenset()
+    each = {c for c in summ if c[0] == "each"}
+    obl(rep, f, f.node, "R9.4", ("each", "self.terms", "$.var_names", None) in each and len(each) == 1,
+        "Model.var_names collects from every term in self.terms", f"contributions {sorted(map(str, summ))}",
+        f"Model.var_names does not unite the variables of all of self.terms, unfiltered: contributions {sorted(map(str, summ))}")
     t = prog.fn("terms.terms.Model.terms")
     rets = [n for n in walk_local(t.node) if isinstance(n, ast.Return)]
     obl(rep, t, t.node, "R9.4", len(rets) == 1 and unparse(rets[0].value) in ("self.common_terms + self.group_terms", "self.group_terms + self.common_terms"),
         "Model.terms = common terms + group-specific terms", unparse(rets[0].value) if rets else "",
         f"Model.terms returns `{unparse(rets[0].value) if rets else None}`: variables of some terms are not counted as used")
-    resp = [i for i in walk_local(f.node) if isinstance(i, ast.If) and unparse(i.test) in ("self.response is not None", "self.response")]
-    ok = len(resp) == 1 and any(unparse(x.func) == "var_names.update" and unparse(x.args[0]) == "self.response.var_names" for x in calls_in(resp[0]))
-    obl(rep, f, resp[0] if resp else f.node, "R9.4", ok, "Model.var_names includes the response's variables", "",
+    resp = {c for c in summ if c[0] == "one" and c[1] == "self.response.var_names"}
+    okr = len(resp) == 1 and next(iter(resp))[2] in ("self.response is not None", "self.response", "not (self.response is None)", "not (not self.response)")
+    obl(rep, f, f.node, "R9.4", okr, "Model.var_names includes the response's variables", "",
         "the response is not counted as a used variable (its missing values would not be filtered)")
-    rets = [n for n in walk_local(f.node) if isinstance(n, ast.Return)]
-    obl(rep, f, f.node, "R9.4", len(rets) == 1 and unparse(rets[0].value) == "var_names", "Model.var_names returns the accumulated set", nontrivial=False)
+    obl(rep, f, f.node, "R9.4", len(summ) == 2 or not okr, "Model.var_names returns exactly those two contributions", nontrivial=False)
     g = prog.fn("terms.terms.GroupSpecificTerm.var_names")
-    ok = _reads(g, "self.expr.var_names") and _reads(g, "self.factor.var_names")
-    rets = [n for n in walk_local(g.node) if isinstance(n, ast.Return)]
-    ok2 = len(rets) == 1 and isinstance(rets[0].value, ast.Call) and getattr(rets[0].value.func, "attr", "") == "union"
-    obl(rep, g, g.node, "R9.4", ok and ok2, "GroupSpecificTerm.var_names = variables of the effect united with those of the factor", "",
-        "GroupSpecificTerm.var_names omits the effect or the grouping factor")
+    sg = shared.union_summary(g)
+    if sg is None:
+        rep.defer(f"R9.4: {g.qual} builds its set in a way the union algebra does not model")
+    obl(rep, g, g.node, "R9.4", sg is None or sg == frozenset({("one", "self.expr.var_names", None), ("one", "self.factor.var_names", None)}),
+        "GroupSpecificTerm.var_names = variables of the effect united with those of the factor", str(sorted(map(str, sg or []))),
+        f"GroupSpecificTerm.var_names omits the effect or the grouping factor: contributions {sorted(map(str, sg or []))}")
     tt = prog.fn("terms.terms.Term.var_names")
-    comps = [n for n in ast.walk(tt.node) if isinstance(n, (ast.ListComp, ast.GeneratorExp, ast.SetComp))]
-    ok = len(comps) == 1 and unparse(comps[0].generators[0].iter) == "self.components" and not comps[0].generators[0].ifs \
-        and unparse(comps[0].elt) == f"{unparse(comps[0].generators[0].target)}.var_names" and "union" in unparse(tt.node)
-    obl(rep, tt, tt.node, "R9.4", ok, "Term.var_names unions over all components, unfiltered", "",
-        "Term.var_names does not cover every component of an interaction")
+    st = shared.union_summary(tt)
+    if st is None:
+        rep.defer(f"R9.4: {tt.qual} builds its set in a way the union algebra does not model")
+    obl(rep, tt, tt.node, "R9.4", st is None or st == frozenset({("each", "self.components", "$.var_names", None)}),
+        "Term.var_names unions over all components, unfiltered", str(sorted(map(str, st or []))),
+        f"Term.var_names does not cover every component of an interaction: contributions {sorted(map(str, st or []))}")
     r = prog.fn("terms.terms.Response.var_names")
     rets = [n for n in walk_local(r.node) if isinstance(n, ast.Return)]
     obl(rep, r, r.node, "R9.4", len(rets) == 1 and unparse(rets[0].value) == "self.term.var_names", "Response.var_names delegates to its term")
